@@ -100,7 +100,9 @@ func buildUnits(seed int64, thorough bool) []unit {
 		}
 		sel++
 		for d := 0; d < p.frameDraws; d++ {
-			add(dFrameSweep, pi, d)
+			for part := 0; part < sweepParts; part++ {
+				add(dFrameSweep, pi, d*sweepParts+part)
+			}
 		}
 		for sb := 0; sb < p.shapeBlocks; sb++ {
 			add(dFrameShapes, pi, sb)
@@ -179,7 +181,7 @@ func (wk *worker) runUnit(u unit) {
 	defer func() { wk.counters["cpu_ms_by_domain/"+wk.domain] += cpuMillis() - t0 }()
 	switch u.dom {
 	case dFrameSweep:
-		wk.frameSweep(u.a, u.b)
+		wk.frameSweep(u.a, u.b/sweepParts, u.b%sweepParts)
 	case dFrameShapes:
 		wk.frameShapes(u.a, u.b)
 	case dFrameComp:
